@@ -19,6 +19,11 @@ correspondence:  (a) exhaustive get/set sequences: per-step observations (get
                  (c) the Coq SPEC (spec_sx, LfuSpec.v) evaluated on the same
                  random traces against the Python reference LFU: outputs and
                  final (key, value, uses) in order.
+                 (f) threads: the per-key (value, uses) after a threaded run whose
+                 result is interleaving-independent (disjoint keys per thread,
+                 no eviction possible; incl. a deterministic forced overlap with a
+                 key that parks inside the critical section) against the
+                 sequential MODEL on the merged sequence (keyview_sx).
 direct oracle:   an independent reference LFU (victim = min (uses, time of
                  reaching that count)), structural consistency of the linked
                  lists, lock-discipline monitor, threaded workload.
@@ -38,7 +43,7 @@ RULE = ("exhaustive: every sequence of get/set over 3 keys of length <= L for ca
         "3 report types, values 0..4; a case is non-trivial when it contains at least one eviction "
         "or one successful get; distinct = distinct (capacity, op sequence)")
 TRUSTED = ["LFUCache.set with report_type: get returns the live defaultdict object (a later set mutates it); the model and the harness observe its value at the time of the get",
-           "thread scheduling / the GIL are not modelled; the concurrency clause is tied to the sequential theorem by a lock-discipline monitor and a threaded stress run (partial)"]
+           "thread scheduling / the GIL are not modelled; the concurrency clause is tied to the sequential theorems dynamically: lock-discipline monitor, threaded stress run, and linearizability of the returned values / final contents against the sequential model on interleaving-independent workloads incl. a deterministic forced overlap (partial)"]
 ASSUMPTIONS = ["keys and values are integers in the model (the cache never inspects them beyond hashing/equality)"]
 
 M63 = (1 << 63) - 1
@@ -670,6 +675,193 @@ def threaded(ctx, rounds, nthreads=8, nops=4000):
         sys.setswitchinterval(old)
 
 
+# ---- linearizability of the values under threads ----------------------------
+
+def key_view(cache):
+    """sorted [[key_id, value, uses]] of the real cache (keys mapped through key_id)"""
+    out = []
+    fn = cache.freq_link_head
+    while fn is not None:
+        cn = fn.cache_head
+        while cn is not None:
+            out.append([getattr(cn.key, "key_id", cn.key), cn.content, fn.freq])
+            cn = cn.nxt
+        fn = fn.nxt
+    return core.sx_sorted(out)
+
+
+def expected_view(cap, merged_ops):
+    ref = RefLFU(cap)
+    for kind, k, v in merged_ops:
+        if kind == "get":
+            ref.get(k)
+        else:
+            ref.set(k, v)
+    return core.sx_sorted([[k, e[0], e[1]] for k, e in ref.d.items()])
+
+
+class ParkKey:
+    """A legal hashable key whose FIRST hash computation parks until released: the
+    thread that passes it to get/set then sits inside the cache's critical section."""
+
+    def __init__(self, key_id):
+        self.key_id = key_id
+        self.inside = threading.Event()
+        self.release = threading.Event()
+        self._first = True
+
+    def __hash__(self):
+        if self._first:
+            self._first = False
+            self.inside.set()
+            self.release.wait(10)
+        return hash(("park", self.key_id))
+
+    def __eq__(self, other):
+        return self is other
+
+
+def _apply(c, op, key_obj, errs, outs):
+    from deepdiff.helper import not_found
+    kind, _k, v = op
+    try:
+        if kind == "get":
+            r = c.get(key_obj)
+            outs.append(None if r is not_found else r)
+        else:
+            c.set(key_obj, value=v)
+            outs.append("done")
+    except BaseException as e:  # the cache must never raise
+        errs.append("%s: %s" % (type(e).__name__, e))
+
+
+def forced_overlap_case(prefix, parked_op, other_op, wait=0.15):
+    """Deterministic overlap: thread 1 is parked INSIDE parked_op (on a fresh key 1000, while it
+    holds the lock), thread 2 issues other_op; both complete.  Keys are disjoint and the capacity
+    exceeds the number of keys, so every linearization gives the same final contents: those of the
+    sequential model on prefix + [parked_op, other_op].  Returns (view, expected, get-output of other_op, errors)."""
+    from deepdiff.lfucache import LFUCache
+    cap = 16
+    c = LFUCache(cap)
+    for kind, k, v in prefix:
+        if kind == "get":
+            c.get(k)
+        else:
+            c.set(k, value=v)
+    pk = ParkKey(parked_op[1])
+    errs, o1, o2 = [], [], []
+    t1 = threading.Thread(target=_apply, args=(c, parked_op, pk, errs, o1))
+    t1.start()
+    if not pk.inside.wait(10):
+        errs.append("thread 1 never reached the key table")
+    t2 = threading.Thread(target=_apply, args=(c, other_op, other_op[1], errs, o2))
+    t2.start()
+    t2.join(wait)                 # blocked on the lock (or already back)
+    pk.release.set()
+    t1.join(10)
+    t2.join(10)
+    if t1.is_alive() or t2.is_alive():
+        errs.append("a thread is still blocked after the release")
+    merged = list(prefix) + [parked_op, other_op]
+    return cap, merged, key_view(c), expected_view(cap, merged), (o2[0] if o2 else None), errs
+
+
+FORCED = [
+    # (prefix, op during which thread 1 is parked, op issued by thread 2 meanwhile)
+    ([("set", 1, 10)], ("set", 1000, 7), ("set", 1, 11)),        # overwrite while a set is in progress
+    ([("set", 1, 10)], ("set", 1000, 7), ("set", 2, 20)),        # new key while a set is in progress
+    ([("set", 1, 10)], ("get", 1000, 0), ("set", 1, 12)),        # overwrite while a (missing) get is in progress
+    ([("set", 1, 10), ("get", 1, 0)], ("set", 1000, 7), ("get", 1, 0)),   # a get waits and then counts its use
+]
+
+
+def forced_overlap(ctx):
+    cases = []
+    for prefix, pop, oop in FORCED:
+        cap, merged, view, exp, out2, errs = forced_overlap_case(prefix, pop, oop)
+        ctx.seen(("forced", tuple(prefix), pop, oop), nontrivial=True)
+        ctx.count("threads:forced_overlap")
+        case = {"kind": "forced_overlap", "capacity": cap, "prefix": prefix, "parked_op": pop, "other_op": oop}
+        if errs:
+            ctx.fail(dict(case, errors=errs), "an operation overlapping another thread's operation raised or blocked: " + errs[0])
+        elif view != exp:
+            ctx.fail(dict(case, contents=view, expected=exp),
+                     "lost or wrong update under concurrency: after both threads returned the cache holds %r; every "
+                     "sequential order of the completed operations gives %r (key, value, uses)" % (view, exp))
+        elif oop[0] == "get" and out2 != [e for e in exp if e[0] == oop[1]][0][1]:
+            ctx.fail(dict(case, returned=out2), "a get overlapping another thread's set returned %r" % (out2,))
+        # the same contents from the sequential MODEL (LfuModel.v) on the merged sequence
+        cases.append(("keyview_sx %d %s" % (cap, coq_ops(merged)), view, dict(case, what="threaded result vs sequential model")))
+    ctx.coq_cases("lfu_forced_overlap", "From DD Require Import Lfu.LfuModel Lfu.LfuShow.\nLocal Open Scope Z_scope.", cases, shard=50,
+                  label="threads_forced_overlap_vs_model")
+
+
+def linearizable_threads(ctx, rounds, nthreads=8, keys_per_thread=3, nops=250):
+    """Each thread owns disjoint keys; capacity >= number of keys, so nothing can be evicted and the
+    result is independent of the interleaving: (1) every get by the owner returns the owner's last
+    set value; (2) after join the per-key (value, uses) equal those of the sequential model on the
+    per-thread sequences concatenated (any merge consistent with program order gives the same)."""
+    from deepdiff.lfucache import LFUCache
+    from deepdiff.helper import not_found
+    old = sys.getswitchinterval()
+    sys.setswitchinterval(1e-6)
+    cases = []
+    try:
+        for r in range(rounds):
+            cap = nthreads * keys_per_thread + ctx.rng.randint(0, 3)
+            c = LFUCache(cap)
+            seqs = []
+            for t in range(nthreads):
+                rr = random.Random(ctx.rng.randrange(1 << 30))
+                own = [t * keys_per_thread + i for i in range(keys_per_thread)]
+                seqs.append([("get", rr.choice(own), 0) if rr.random() < 0.4 else ("set", rr.choice(own), rr.randrange(1000))
+                             for _ in range(nops)])
+            problems = []
+            start = threading.Barrier(nthreads)
+
+            def work(seq):
+                last = {}
+                try:
+                    start.wait(10)
+                    for i, (kind, k, v) in enumerate(seq):
+                        if kind == "get":
+                            got = c.get(k)
+                            want = last.get(k, not_found)
+                            if got is not want and got != want:
+                                problems.append("op %d: get(%r) returned %r, the owner's last completed set wrote %r"
+                                                % (i, k, None if got is not_found else got, None if want is not_found else want))
+                                return
+                        else:
+                            c.set(k, value=v)
+                            last[k] = v
+                except BaseException as e:
+                    problems.append("%s: %s" % (type(e).__name__, e))
+            ts = [threading.Thread(target=work, args=(s,)) for s in seqs]
+            for th in ts:
+                th.start()
+            for th in ts:
+                th.join(60)
+            merged = [op for s in seqs for op in s]
+            view, exp = key_view(c), expected_view(cap, merged)
+            ctx.seen(("linear", cap, tuple(map(tuple, seqs))), nontrivial=True)
+            ctx.count("threads:linearizable_rounds")
+            case = {"kind": "linearizable_threads", "capacity": cap, "thread_sequences": seqs}
+            if problems:
+                ctx.fail(dict(case, problems=problems[:5]), "values under concurrency are not linearizable: " + problems[0])
+                break
+            if view != exp:
+                diff = [(a, b) for a, b in zip(view, exp) if a != b][:5]
+                ctx.fail(dict(case, differing=diff, n_contents=len(view), n_expected=len(exp)),
+                         "after all threads finished the cache does not hold the last value set / the number of uses "
+                         "for every key (disjoint keys, no eviction possible): got vs expected %r" % (diff or (len(view), len(exp)),))
+                break
+            cases.append(("keyview_sx %d %s" % (cap, coq_ops(merged)), view, {"kind": "linearizable_threads", "capacity": cap}))
+    finally:
+        sys.setswitchinterval(old)
+    ctx.coq_cases("lfu_linear_threads", "From DD Require Import Lfu.LfuModel Lfu.LfuShow.\nLocal Open Scope Z_scope.", cases, shard=4,
+                  label="threads_linearizable_vs_model")
+
+
 def run(ctx):
     exhaustive(ctx, 3, 7 if ctx.thorough else 6)
     random_traces(ctx, 1500 if ctx.thorough else 300, 200)
@@ -677,12 +869,23 @@ def run(ctx):
     rt_traces(ctx, 1000 if ctx.thorough else 200, 60)
     lock_monitor(ctx, 300 if ctx.thorough else 60)
     threaded(ctx, 12 if ctx.thorough else 3)
+    forced_overlap(ctx)
+    linearizable_threads(ctx, 10 if ctx.thorough else 3)
     ctx.sample({"exhaustive_example": {"capacity": 2, "ops": ops_of((1, 3, 0, 5, 2))}})
 
 
 def replay(ctx, data):
     case = data.get("case", {})
-    if "rt_ops" in case:
+    if case.get("kind") == "forced_overlap":
+        cap, merged, view, exp, out2, errs = forced_overlap_case([tuple(o) for o in case["prefix"]], tuple(case["parked_op"]), tuple(case["other_op"]))
+        ctx.evaluations += 1
+        print("replay: contents=%r expected=%r errors=%r" % (view, exp, errs))
+        if errs or view != exp:
+            ctx.fail(case, "lost or wrong update under concurrency: contents %r, every sequential order gives %r" % (view, exp))
+    elif case.get("kind") == "linearizable_threads":
+        forced_overlap(ctx)
+        linearizable_threads(ctx, 5)
+    elif "rt_ops" in case:
         ops = [tuple(o) for o in case["rt_ops"]]
         outs, states, err, _ = run_impl_rt(case["capacity"], ops)
         ctx.evaluations += 1
